@@ -19,13 +19,14 @@ const factoryPath = modPath + "/pkg/factory"
 func init() { register("C20", "other", checkC20) }
 
 func checkC20(c *Ctx, r *Report) {
-	r.Explanation = "Soundness of validation relative to what the runtime dereferences, decided over the whole configuration space by types instead of by sample files: (R1) a guarantee table is computed from the `valid` struct tags of pkg/factory - a pointer-typed section is guaranteed present iff its tag contains `required` (govalidator rejects a nil required pointer and visits nested structs); (R2) every dereference of a configuration pointer member anywhere in the module either is dominated by a non-nil test of the same access path or concerns a guaranteed member; (R3) rejection clauses: the service-name switch of Configuration.validate has an error default and accepts exactly the names the router registers, the registered `scheme` validator accepts exactly the schemes startServer serves, ReadConfig returns an error whenever Validate does, and the configuration in use comes from ReadConfig."
+	r.Explanation = "Soundness of validation relative to what the runtime dereferences, decided over the whole configuration space by types instead of by sample files: (R1) a guarantee table is computed from the `valid` struct tags of pkg/factory - a pointer-typed section is guaranteed present iff its tag contains `required` (govalidator rejects a nil required pointer and visits nested structs); (R2) every dereference of a configuration pointer member anywhere in the module either is dominated by a non-nil test of the same access path or concerns a guaranteed member; (R3) rejection clauses: the service-name switch of Configuration.validate has an error default and accepts exactly the names the router registers, the registered `scheme` validator accepts exactly the schemes startServer serves, ReadConfig returns an error whenever Validate does, and the configuration in use comes from ReadConfig; (R4) each function that calls govalidator.ValidateStruct hands a non-nil error to its caller whenever the validator reported one - directly or through a helper that returns nil only for a nil argument."
 	r.Undecided = []string{"value-level validators (host, port, url, in(...))", "semantics of govalidator beyond required/nested traversal (trusted)", "runtime failures that are not nil dereferences (ports in use, unreadable certificates)"}
 	r.Trusted = append(r.Trusted, "govalidator.ValidateStruct fails for a nil pointer field tagged required and descends into nested struct pointers")
 	r.Exhaustive = true
 	r.rule("C20.R1", "guarantee table from the valid tags of every pointer-typed configuration member", 8)
 	r.rule("C20.R2", "every dereference of a configuration pointer member is guarded or guaranteed by validation", 20)
 	r.rule("C20.R3", "rejection clauses: service names, scheme, ReadConfig error propagation, provenance of the configuration in use", 5)
+	r.rule("C20.R4", "a validation failure reported by ValidateStruct is never dropped on its way to ReadConfig", 3)
 
 	fp := c.pkg("pkg/factory")
 	cfgT := c.namedType("pkg/factory", "Config")
@@ -251,6 +252,7 @@ func checkC20(c *Ctx, r *Report) {
 	if okAll && nstore > 0 {
 		r.proven("C20.R3", "config-provenance", "", fmt.Sprintf("%d assignment(s) of factory.ChfConfig, all from ReadConfig", nstore))
 	}
+	c20ErrorsNotDropped(c, r, "C20.R4")
 }
 
 // stringConstsComparedIn: the string constants a function compares (==) some
@@ -291,3 +293,237 @@ func dominatedByRange(ins ssa.Instruction) bool {
 }
 
 var _ = sort.Strings
+
+// ---- R4: a validation failure is never dropped on its way to the caller ----
+//
+// govalidator.ValidateStruct reports failures as its error result.  Each
+// function of pkg/factory that calls it must hand a non-nil error to its own
+// caller whenever that result is non-nil: it returns the result itself, or
+// passes it through a module function that returns nil only when its argument
+// is nil.  (A helper that filters the error list and returns nil when nothing
+// is left silently accepts configurations whose only defects sit in nested
+// sections - they are reported as one nested element.)
+func c20ErrorsNotDropped(c *Ctx, r *Report, rule string) {
+	fp := c.pkg("pkg/factory")
+	n := 0
+	for _, f := range c.ModFuncs {
+		if f.Pkg == nil || f.Pkg.Pkg != fp.Types {
+			continue
+		}
+		eachInstr(f, func(_ *ssa.BasicBlock, _ int, ins ssa.Instruction) {
+			call, ok := ins.(*ssa.Call)
+			if !ok {
+				return
+			}
+			obj := calleeObj(&call.Call)
+			if obj == nil || obj.Pkg() == nil {
+				return
+			}
+			what := ""
+			switch {
+			case strings.HasSuffix(obj.Pkg().Path(), "govalidator") && obj.Name() == "ValidateStruct":
+				what = "ValidateStruct"
+			case obj.Pkg() == fp.Types && (obj.Name() == "validate" || obj.Name() == "Validate"):
+				if sig, ok := obj.Type().(*types.Signature); ok && sig.Results().Len() == 2 && isErrorType(sig.Results().At(1).Type()) {
+					what = funcLocalName(obj)
+				}
+			}
+			if what == "" {
+				return
+			}
+			var errV ssa.Value
+			for _, ref := range *call.Referrers() {
+				if ex, ok := ref.(*ssa.Extract); ok && ex.Index == 1 {
+					errV = ex
+				}
+			}
+			n++
+			key := fmt.Sprintf("%s|result of %s #%d", fnKey(f), what, n)
+			if errV == nil {
+				r.viol(rule, key, posOf(c, call), "the error result of ValidateStruct is discarded")
+				return
+			}
+			bad := ""
+			nret := 0
+			// where the failure is known: the non-nil edges of tests of the result, or -
+			// when it is never tested - everything after the call
+			var failBlocks map[*ssa.BasicBlock]bool
+			for _, b := range f.Blocks {
+				if len(b.Instrs) == 0 {
+					continue
+				}
+				ifi, ok := b.Instrs[len(b.Instrs)-1].(*ssa.If)
+				if !ok {
+					continue
+				}
+				bo, ok := ifi.Cond.(*ssa.BinOp)
+				if !ok || (bo.Op != token.EQL && bo.Op != token.NEQ) || !((bo.X == errV && isNilConst(bo.Y)) || (bo.Y == errV && isNilConst(bo.X))) {
+					continue
+				}
+				succ := b.Succs[0]
+				if bo.Op == token.EQL {
+					succ = b.Succs[1]
+				}
+				if failBlocks == nil {
+					failBlocks = map[*ssa.BasicBlock]bool{}
+				}
+				for bb := range reachableFrom(succ, nil, nil, nil) {
+					failBlocks[bb] = true
+				}
+			}
+			for _, ri := range returnsOf(f) {
+				if len(ri.Vals) == 0 {
+					continue
+				}
+				if failBlocks != nil {
+					if !failBlocks[ri.Ret.Block()] {
+						continue
+					}
+				} else if !canReach(call, ri.Ret) {
+					continue
+				}
+				nret++
+				v := ri.Vals[len(ri.Vals)-1]
+				if why := preservesNonNil(c, v, errV, 0); why != "" {
+					bad = why
+				}
+			}
+			if nret == 0 {
+				bad = "no return follows the validation"
+			}
+			r.check(bad == "", rule, key, posOf(c, call), "every return after the validation hands on its error (directly or through a helper that returns nil only for a nil argument)", "a validation failure can be dropped: "+bad+" - a configuration whose defects are reported this way is accepted and later dereferenced")
+		})
+	}
+}
+
+// preservesNonNil: is v non-nil whenever src is?  "" = yes, otherwise why not.
+func preservesNonNil(c *Ctx, v, src ssa.Value, depth int) string {
+	if v == src {
+		return ""
+	}
+	switch x := v.(type) {
+	case *ssa.Call:
+		if obj := calleeObj(&x.Call); obj != nil && (isFunc(obj, "fmt", "Errorf") || isFunc(obj, "errors", "New")) {
+			return "" // a freshly made error is never nil
+		}
+		sc := x.Call.StaticCallee()
+		if sc == nil || !c.inModule(sc) || len(sc.Blocks) == 0 || depth > 2 {
+			return "the error is passed through " + callName(x) + ", which cannot be inspected"
+		}
+		argIdx := -1
+		for i, a := range x.Call.Args {
+			if a == src {
+				argIdx = i
+			}
+		}
+		if argIdx < 0 {
+			return "the returned error " + describe(v) + " does not derive from the validation result"
+		}
+		return nilOnlyIfParamNil(c, sc, sc.Params[argIdx], depth)
+	case *ssa.Phi:
+		for _, e := range x.Edges {
+			if why := preservesNonNil(c, e, src, depth); why != "" {
+				return why
+			}
+		}
+		return ""
+	}
+	return "the returned error " + describe(v) + " does not derive from the validation result"
+}
+
+// nilOnlyIfParamNil: every return of g yields a non-nil error unless it lies on
+// the `p == nil` edge.
+func nilOnlyIfParamNil(c *Ctx, g *ssa.Function, p *ssa.Parameter, depth int) string {
+	for _, ri := range returnsOf(g) {
+		if len(ri.Vals) == 0 {
+			continue
+		}
+		v := ri.Vals[len(ri.Vals)-1]
+		leaves := []ssa.Value{v}
+		if ph, ok := v.(*ssa.Phi); ok {
+			leaves = ph.Edges
+		}
+		for _, lf := range leaves {
+			switch y := lf.(type) {
+			case *ssa.MakeInterface:
+				if _, isPtr := y.X.Type().Underlying().(*types.Pointer); !isPtr {
+					continue // an interface holding a non-pointer value is never nil
+				}
+				return g.Name() + " may return a nil pointer wrapped in an error"
+			case *ssa.Call:
+				if obj := calleeObj(&y.Call); obj != nil && (isFunc(obj, "fmt", "Errorf") || isFunc(obj, "errors", "New")) {
+					continue
+				}
+				return g.Name() + " returns the result of " + callName(y)
+			case *ssa.Parameter:
+				if y == p {
+					continue
+				}
+				return g.Name() + " returns another parameter"
+			case *ssa.Const:
+				if !y.IsNil() {
+					continue
+				}
+				// nil: only on the edge where the parameter was tested nil
+				onNilEdge := false
+				for _, b := range g.Blocks {
+					if len(b.Instrs) == 0 {
+						continue
+					}
+					ifi, ok := b.Instrs[len(b.Instrs)-1].(*ssa.If)
+					if !ok {
+						continue
+					}
+					bo, ok := ifi.Cond.(*ssa.BinOp)
+					if !ok || (bo.Op != token.EQL && bo.Op != token.NEQ) {
+						continue
+					}
+					if !((bo.X == ssa.Value(p) && isNilConst(bo.Y)) || (bo.Y == ssa.Value(p) && isNilConst(bo.X))) {
+						continue
+					}
+					succ := b.Succs[0]
+					if bo.Op == token.NEQ {
+						succ = b.Succs[1]
+					}
+					if edgeDominates(b, succ, ri.Ret.Block()) {
+						onNilEdge = true
+					}
+				}
+				if !onNilEdge {
+					return g.Name() + " returns nil (at " + posOf(c, ri.Ret) + ") on a path where its argument is not known to be nil"
+				}
+			default:
+				return g.Name() + " returns " + describe(lf)
+			}
+		}
+	}
+	return ""
+}
+
+// onNilEdgeOf: block b is reached only over the edge of a test that found v nil.
+func onNilEdgeOf(f *ssa.Function, v ssa.Value, blk *ssa.BasicBlock) bool {
+	for _, b := range f.Blocks {
+		if len(b.Instrs) == 0 {
+			continue
+		}
+		ifi, ok := b.Instrs[len(b.Instrs)-1].(*ssa.If)
+		if !ok {
+			continue
+		}
+		bo, ok := ifi.Cond.(*ssa.BinOp)
+		if !ok || (bo.Op != token.EQL && bo.Op != token.NEQ) {
+			continue
+		}
+		if !((bo.X == v && isNilConst(bo.Y)) || (bo.Y == v && isNilConst(bo.X))) {
+			continue
+		}
+		succ := b.Succs[0]
+		if bo.Op == token.NEQ {
+			succ = b.Succs[1]
+		}
+		if edgeDominates(b, succ, blk) {
+			return true
+		}
+	}
+	return false
+}
